@@ -210,6 +210,8 @@ def correspond(ctx: Ctx) -> None:
 
 
 def oracle(ctx: Ctx) -> None:
+    c13.enumerated_stage(ctx, valid=False, mutants=True)
+    c13.close_families(ctx)
     c13.model_stage(ctx, ctx.n(22, 300), mutants=True)
 
 
@@ -222,8 +224,15 @@ def facet_stage(ctx: Ctx) -> None:
     lines: List[str] = []
     expected: List[Tuple[str, str, str]] = []
     n_models = 0
-    for m, stream in c13.models(ctx, ctx.n(10, 120)):
-        b = c13.build_model(ctx, m, with_sdk=False)
+    from harness.props import c14_models
+
+    def built() -> Iterator[Tuple[Any, str]]:
+        for fam in c14_models.enumerated(ctx.tier):
+            yield c13.built_family(ctx, fam), "enumerated-" + fam.name.split("-")[0]
+        for m, stream in c13.models(ctx, ctx.n(10, 120)):
+            yield c13.build_model(ctx, m, with_sdk=False), stream
+
+    for b, stream in built():
         if b.xsd_text is None:
             continue
         n_models += 1
@@ -260,6 +269,10 @@ def facet_stage(ctx: Ctx) -> None:
     for ln, (got, where, stream), want in zip(lines, expected, answers):
         ctx.count(ln + where, stream="facets/" + stream)
         ctx.traces_validated += 1
+        if " pattern * " in want + " ":
+            # two or more patterns: the model only says "one pattern facet (text by greenery), then the length facets"
+            got = re.sub(r" pattern (?:[0-9a-f.]+|-)(?= |$)", " pattern *", got)
+            ctx.hit("facets=intersected-patterns")
         ctx.hit("facets=" + ("restricted" if "pattern" in got or "Length" in got or got.startswith("occurs") and got != "occurs 0 unbounded" else "plain"))
         if got != want:
             ctx.disagree("facets/" + stream, {"request": ln, "where": where}, got, want)
